@@ -39,6 +39,10 @@ CHECKS = {
    text="Scheduler half of the hand-off, explicit-state: pods in every BindRequest progress state (not started, Failed k times with BackoffLimit nil/0/1/3, pod bound but request not updated, Succeeded, selected node deleted) x 5 shapes (whole, 2-GPU, fraction, multi-fraction, cpu) x competitors for the same capacity; BFS depth 3 over real cycles and environment events (bind completes / fails again, pod terminates, node deleted). Oracle: with the pod charged to its selected node (groups included) the C01/C02 inequalities hold in every later cycle; requests that are terminally failed or name a deleted node are gone after the next cycle and their pod is bound/nominated again when it fits. Binder half (attempt count persisted, <= BackoffLimit retries): see level_note.",
    note="Trusted: as C01. The binder half of the statement (retries and persisted attempt count in BindRequestReconciler.UpdateStatus) is decided by the C11/C17 binder wiring once integrated; until then the environment event bindFail models a failed attempt.",
    technique="explicit-state model checking of the implementation (BFS over canonical cluster worlds, real scheduler cycle as transition relation)"),
+ "C19": dict(engine="inputmc", cat="exploration", ref="§5 C19",
+   text="Bounded-exhaustive input enumeration: every string of length <= 4 (quick) / <= 5 (thorough) over an 18-character alphabet plus 91 boundary literals, as each of gpu-fraction / gpu-memory / gpu-fraction-num-devices, crossed with presence combinations of the other annotations, GPU limits on container / init container, named fraction container {absent, regular, init, missing} and sharing enabled/disabled (4.3M pods quick, 77M thorough). Every pod runs through the REAL admission mutator (twice) and validator, scheduler NewTaskInfo, binder validator and helpers, pod-group-controller extractors; one representative per accepted class additionally through a real scheduler cycle and the binder gpusharing PreBind. Oracle: an exact big.Rat reference parser and the six agreement clauses of the statement.",
+   note="Trusted: the reference parser (~150 lines), the fake client used for the end-to-end stage. Values outside the alphabet / longer than the bound are not explored.",
+   technique="bounded-exhaustive input enumeration against a reference model (real admission, scheduler, binder and controller parsers on every input)"),
 }
 
 NOT_APPLICABLE = []
